@@ -4,6 +4,7 @@
 From Coq Require Import List NArith Bool.
 Import ListNotations.
 From VF Require Import C10.Model C10.Proofs.
+From VF Require gen.Gen_C09.
 Local Open Scope N_scope.
 
 (* NO RE-POINTING (full).  For every agent state, every peer DID d that resolves to a document there, and EVERY
@@ -112,6 +113,21 @@ Proof.
   - rewrite (KB1 _ Hb), (KB2 _ Ha). reflexivity.
 Qed.
 Print Assumptions attributed.
+
+(* The state machine the model consults (`can`) is the relation C09's translator regenerates from the code of both
+   services (coq/gen/Gen_C09.v: didex_edges / legacy_edges over null, invited, requested, responded, completed[,
+   abandoned], numbered from 1), which coq/C09 proves to be the published RFC 0023 / 0160 graph. *)
+Definition st_index (s : st) : N :=
+  match s with SNull => 1 | SInvited => 2 | SRequested => 3 | SResponded => 4 | SCompleted => 5 | SAbandoned => 6 end.
+Definition all_states : list st := [SNull; SInvited; SRequested; SResponded; SCompleted; SAbandoned].
+Definition in_edges (es : list (N * N)) (a b : st) : bool :=
+  existsb (fun e => N.eqb (fst e) (st_index a) && N.eqb (snd e) (st_index b)) es.
+
+Theorem state_machine_is_generated_graph :
+  forallb (fun a => forallb (fun b => Bool.eqb (can a b) (in_edges Gen_C09.didex_edges a b) &&
+                                      Bool.eqb (can a b) (in_edges Gen_C09.legacy_edges a b)) all_states) all_states = true.
+Proof. vm_compute. reflexivity. Qed.
+Print Assumptions state_machine_is_generated_graph.
 
 (* ---------- the code as found ---------- *)
 (* alice: invitation 2 (key 3); bob's request (thread 6, DID 7, keys [8], endpoint 9); complete; then mallory's
